@@ -137,6 +137,8 @@ def method(x, rel, impl_sel, name="valid_frontier"):
     f = x.fn(rel, impl_sel + " :: fn " + name)
     f.replace_macro_calls(r"format", "verif_format()")
     f.rewrite(r"\A(\s*)fn ", r"\1pub fn ", 0, 1, rule="R3")
+    # rule R-param: a parameter written with a leading underscore (`_previous_edge`: "unused") is the same parameter; the contract names it without the underscore
+    f.rewrite(r"\b_(edge|state|previous_edge|state_model)\b", r"\1", 0, None, rule="R-param")
     return f
 
 
